@@ -200,11 +200,15 @@ pub fn judge(exp: &Expect, obs: &RObs, pos: usize) -> Result<Option<usize>, (Str
             }
         }
         (Expect::MustErr, RObs::Err) => Ok(None),
+        
         (Expect::MustErr, o) => bad("no-error", format!("needs bits beyond the end of a strict stream but returned {:?}", o)),
         (e, RObs::Err) => bad("error", format!("expected {:?}, got an error", e)),
         (e, o) => bad("shape", format!("expected {:?} got {:?}", e, o)),
     }
 }
+
+/// model position of a state reached through a reported error (only seeks are issued from it)
+pub const ERRORED: usize = usize::MAX;
 
 /// after this many violating transitions in one (configuration, image) the exploration stops
 pub const VIOLATION_BUDGET: u64 = 400;
@@ -217,6 +221,8 @@ pub struct RdRun<'a> {
     /// stop after this many states (0 = none); hitting it is reported as a cap
     pub max_states: usize,
     pub check_counter: bool,
+    /// 0 = explore to the fixpoint; otherwise histories of at most this many operations
+    pub max_depth: u32,
 }
 
 struct Node {
@@ -256,10 +262,11 @@ pub fn explore(run: &RdRun, init: Box<dyn Rd>) -> Outcome {
     let mut queue: VecDeque<(u32, Box<dyn Rd>, usize)> = VecDeque::new();
     let mut sigs: HashMap<String, u64> = HashMap::new();
     crate::watchdog::set_context(serde_json::to_string(&json!({"base": replay_doc(&info, run.model, run.image, &[]), "alphabet": run.alphabet})).unwrap());
-    let k0 = format!("{}@0", init.key());
+    let pos0 = info.pre;
+    let k0 = format!("{}@{}", init.key(), pos0);
     seen.insert(k0, 0);
     nodes.push(Node { parent: 0, op: None, depth: 0 });
-    queue.push_back((0, init, 0));
+    queue.push_back((0, init, pos0));
     let mut sampled = false;
     let mut nviol = 0u64;
     while let Some((id, rd, pos)) = queue.pop_front() {
@@ -270,16 +277,25 @@ pub fn explore(run: &RdRun, init: Box<dyn Rd>) -> Outcome {
         }
         let depth = nodes[id as usize].depth;
         crate::watchdog::enter(|| serde_json::to_string(&path_to(&nodes, id as usize)).unwrap());
+        // a state reached through a reported error is only continued by seeks (which must
+        // re-establish a defined state whatever the failed operation consumed)
+        let errored = pos == ERRORED;
+        if run.max_depth > 0 && depth >= run.max_depth {
+            continue;
+        }
         for (opi, op) in run.alphabet.iter().enumerate() {
+            if errored && !matches!(op, ROp::SetPos(_)) {
+                continue;
+            }
             crate::watchdog::set_aux(opi as u64);
-            let exp = run.model.expect(op, pos, &info);
+            let exp = run.model.expect(op, if errored { 0 } else { pos }, &info);
             if exp == Expect::Disabled {
                 continue;
             }
             let mut r2 = rd.fork();
             let obs = r2.apply(op);
             out.cov.transitions += 1;
-            let mut verdict = judge(&exp, &obs, pos);
+            let mut verdict = judge(&exp, &obs, if errored { 0 } else { pos });
             // an observation = what the call returned and where it left the stream
             out.cov.observe(op.class(), fnv(format!("{:?}{:?}", obs, verdict.as_ref().ok()).as_bytes()));
             if depth >= 1 {
@@ -287,7 +303,7 @@ pub fn explore(run: &RdRun, init: Box<dyn Rd>) -> Outcome {
             }
             // position / counter oracles
             if let Ok(Some(np)) = verdict {
-                if let Some(bp) = r2.bit_pos() {
+                if let Some(bp) = if info.ragged { None } else { r2.bit_pos() } {
                     match bp {
                         Ok(p) if p as usize == np => {}
                         Ok(p) => verdict = Err(("position".into(), format!("bit_pos() = {} but {} bits precede the next bit", p, np))),
@@ -296,8 +312,8 @@ pub fn explore(run: &RdRun, init: Box<dyn Rd>) -> Outcome {
                 }
                 if run.check_counter {
                     if let Some(c) = r2.counter() {
-                        if c as usize != np && verdict.is_ok() {
-                            verdict = Err(("counter".into(), format!("bits_read = {} but {} bits were consumed", c, np)));
+                        if c as usize + info.pre != np && verdict.is_ok() {
+                            verdict = Err(("counter".into(), format!("bits_read = {} but {} bits were consumed since the wrapper was created", c, np - info.pre)));
                         }
                     }
                 }
@@ -319,7 +335,29 @@ pub fn explore(run: &RdRun, init: Box<dyn Rd>) -> Outcome {
                         queue.push_back((nid, r2, np));
                     }
                 }
-                Ok(None) => {}
+                Ok(None) if matches!(op, ROp::Peek(_)) && matches!(obs, RObs::Err) && !errored => {
+                    // a failed look-ahead must leave the reader intact (table decoders fall back to the
+                    // bit-by-bit path after it): the state continues as an ordinary state at the same position
+                    let key = format!("{}@{}", r2.key(), pos);
+                    if !seen.contains_key(&key) && (run.max_states == 0 || nodes.len() < run.max_states) {
+                        let nid = nodes.len() as u32;
+                        seen.insert(key, nid);
+                        nodes.push(Node { parent: id, op: Some(op.clone()), depth: depth + 1 });
+                        queue.push_back((nid, r2, pos));
+                    }
+                }
+                Ok(None) => {
+                    // error reported as required: the object lives on as an "errored" state
+                    if info.seek && !errored && !matches!(obs, RObs::Unsupported) {
+                        let key = format!("{}@err", r2.key());
+                        if !seen.contains_key(&key) && (run.max_states == 0 || nodes.len() < run.max_states) {
+                            let nid = nodes.len() as u32;
+                            seen.insert(key, nid);
+                            nodes.push(Node { parent: id, op: Some(op.clone()), depth: depth + 1 });
+                            queue.push_back((nid, r2, ERRORED));
+                        }
+                    }
+                }
                 Err((symptom, detail)) => {
                     let mut ops = path_to(&nodes, id as usize);
                     ops.push(op.clone());
@@ -369,17 +407,25 @@ pub fn replay(doc: &Value) -> (Vec<String>, bool) {
         limit: doc["limit"].as_u64().unwrap() as usize,
         tables_ok,
     };
-    let mut rd = make_reader(e, kind, backend, wrapper, &image);
+    let (bname, tail): (&'static str, Vec<u8>) = match backend.split_once("+tail") {
+        Some((b, n)) => (leak(b), vec![0xFF; n.parse::<usize>().unwrap_or(0)]),
+        None => (backend, vec![]),
+    };
+    let mut rd = make_reader_tail(e, kind, bname, wrapper, &image, &tail);
     let info = rd.info().clone();
-    let mut pos = 0usize;
+    let mut pos = info.pre;
     let mut log = vec![];
     let mut failed = false;
     for op in &ops {
-        let exp = model.expect(op, pos, &info);
+        if pos == ERRORED && !matches!(op, ROp::SetPos(_)) {
+            log.push(format!("{:?}: not issued after an error (only seeks are)", op));
+            break;
+        }
+        let exp = model.expect(op, if pos == ERRORED { 0 } else { pos }, &info);
         let obs = rd.apply(op);
         let mut verdict = judge(&exp, &obs, pos);
         if let Ok(Some(np)) = verdict {
-            if let Some(bp) = rd.bit_pos() {
+            if let Some(bp) = if info.ragged { None } else { rd.bit_pos() } {
                 match bp {
                     Ok(p) if p as usize == np => {}
                     Ok(p) => verdict = Err(("position".into(), format!("bit_pos() = {} expected {}", p, np))),
@@ -387,8 +433,8 @@ pub fn replay(doc: &Value) -> (Vec<String>, bool) {
                 }
             }
             if let Some(c) = rd.counter() {
-                if c as usize != np && verdict.is_ok() {
-                    verdict = Err(("counter".into(), format!("bits_read = {} expected {}", c, np)));
+                if c as usize + info.pre != np && verdict.is_ok() && doc["check_counter"].as_bool().unwrap_or(true) {
+                    verdict = Err(("counter".into(), format!("bits_read = {} expected {}", c, np - info.pre)));
                 }
             }
         }
@@ -396,7 +442,8 @@ pub fn replay(doc: &Value) -> (Vec<String>, bool) {
         log.push(s);
         match verdict {
             Ok(Some(np)) => pos = np,
-            Ok(None) => break,
+            Ok(None) if matches!(op, ROp::Peek(_)) && matches!(obs, RObs::Err) => {}
+            Ok(None) => pos = ERRORED,
             Err(_) => {
                 failed = true;
                 break;
